@@ -115,16 +115,6 @@ func TestMain(m *testing.M) {
 	os.Exit(m.Run())
 }
 
-func propOf(p string) string {
-	switch p {
-	case "C03scale":
-		return "C03"
-	case "C10scale", "C10scale8":
-		return "C10"
-	}
-	return p
-}
-
 func historyLines(res *Result) []string {
 	var out []string
 	for _, x := range res.X {
